@@ -98,30 +98,37 @@ Definition slog : list DLmsg := [p1msg 0 POSE 1 11; p1msg 1 POSE 0 12; p1msg 2 P
 Definition senv : env := concrete_env slog [0; 1]%N [(tr_all, [0; 1; 2]%N)] [0; 1; 2]%N.
 Definition sargs : args := with_max 1 (with_src [0%N] (call [POSE])).
 
+(* before /repo 638779d: nothing came back although Pose #1 matches; now the counter applies the limit *)
 Lemma max_with_sources_witness :
-  ords_of (fresh senv sargs) POSE = Some [] /\ map m_ord (spec_messages senv sargs false) = [1]%N /\
-  diag senv sargs = (true, 1).
+  ords_of (snd (read_legacy senv init_state sargs)) POSE = Some [] /\
+  map m_ord (spec_messages senv sargs false) = [1]%N /\
+  ords_of (fresh senv sargs) POSE = Some [1]%N.
 Proof. vm_compute. repeat split; reflexivity. Qed.
 
-Lemma max_with_sources_refuted :
-  exists e a, env_ok e /\ a_order a = false /\ a_align a = align_none /\ a_numpy a = false /\ ~ preslice_harmless e a /\
-    ~ (exists r, fresh e a = OutDict r /\
+Lemma all_decode_senv : all_decode senv sargs.
+Proof. intros m Hm _. cbn in Hm. repeat (destruct Hm as [<- | Hm]; [reflexivity |]). destruct Hm. Qed.
+
+Lemma max_messages_semantics_legacy_refuted :
+  exists e a, env_ok e /\ all_decode e a /\ a_order a = false /\ a_align a = align_none /\ a_numpy a = false /\
+    ~ (exists r, snd (read_legacy e init_state a) = OutDict r /\
          forall t d, lookup_data t r = Some d -> d_msgs d = map RFile (of_type t (spec_messages e a false))).
 Proof.
-  exists senv, sargs. split; [apply concrete_env_ok |]. repeat split; try reflexivity.
-  - unfold preslice_harmless. destruct max_with_sources_witness as (_ & _ & Hd). rewrite Hd. cbn [fst snd]. intros [H | H]; discriminate.
-  - intros (r & Hr & Hall).
-    destruct max_with_sources_witness as (H1 & H2 & _). unfold ords_of in H1. rewrite Hr in H1.
-    destruct (lookup_data POSE r) as [d |] eqn:El; [| discriminate].
-    specialize (Hall POSE d El).
-    assert (Hlen : length (d_msgs d) = 1).
-    { rewrite Hall, map_length. 
-      replace (of_type POSE (spec_messages senv sargs false)) with (spec_messages senv sargs false) by (vm_compute; reflexivity).
-      rewrite <- (map_length m_ord), H2. reflexivity. }
-    inversion H1 as [H3]. apply (f_equal (@length N)) in H3. rewrite map_length in H3. cbn in H3. lia.
+  exists senv, sargs. split; [apply concrete_env_ok |]. split; [apply all_decode_senv |]. repeat split; try reflexivity.
+  intros (r & Hr & Hall).
+  destruct max_with_sources_witness as (H1 & H2 & _). unfold ords_of in H1. rewrite Hr in H1.
+  destruct (lookup_data POSE r) as [d |] eqn:El; [| discriminate].
+  specialize (Hall POSE d El).
+  assert (Hlen : length (d_msgs d) = 1).
+  { rewrite Hall, map_length.
+    replace (of_type POSE (spec_messages senv sargs false)) with (spec_messages senv sargs false) by (vm_compute; reflexivity).
+    rewrite <- (map_length m_ord), H2. reflexivity. }
+  inversion H1 as [H3]. apply (f_equal (@length N)) in H3. rewrite map_length in H3. cbn in H3. lia.
 Qed.
 
 (* non-vacuity of the hypotheses of the semantic theorems: a history-free call with a maximum, in order, last N *)
+Lemma all_decode_wenv a : all_decode wenv a.
+Proof. intros m Hm _. cbn in Hm. repeat (destruct Hm as [<- | Hm]; [reflexivity |]). destruct Hm. Qed.
+
 Example preslice_harmless_instances :
   preslice_harmless wenv (with_max 3 (call [POSE; POSE_AUX])) /\
   preslice_harmless wenv (in_order (with_max (-2) (call [POSE; EVENT]))) /\
@@ -134,23 +141,12 @@ Proof.
   vm_compute. repeat constructor.
 Qed.
 
-(* the full statement of max_messages_semantics (no side condition on the pre-slice) is false of the model *)
-Definition max_messages_semantics_full : Prop :=
-  forall e a, env_ok e -> a_order a = false -> a_align a = align_none -> (a_numpy a = false \/ a_keep a = true) ->
-    exists r, fresh e a = OutDict r /\
-      forall t d, lookup_data t r = Some d -> d_msgs d = map RFile (of_type t (spec_messages e a false)).
-
-Lemma max_messages_semantics_full_refuted : ~ max_messages_semantics_full.
-Proof.
-  intros Hfull. destruct max_with_sources_refuted as (e & a & He & Ho & Hal & Hn & _ & Hneg).
-  apply Hneg. apply Hfull; auto.
-Qed.
-
 (* a source the reader did not discover: returned when no source_ids are given, not returned when requested by id *)
 Definition llog : list DLmsg := [p1msg 0 POSE 0 11; p1msg 1 POSE 0 12; p1msg 2 POSE 5 13]%N%Z.
 Definition lenv : env := concrete_env llog [0%N] [(tr_all, [0; 1; 2]%N)] [0; 1; 2]%N.
 Example undiscovered_source_instances :
   ords_of (fresh lenv (call [POSE])) POSE = Some [0; 1; 2]%N /\
-  ords_of (fresh lenv (with_src [0; 5]%N (call [POSE]))) POSE = Some [0; 1]%N /\
+  ords_of (fresh lenv (with_src [0; 5]%N (call [POSE]))) POSE
+    = Some (if reader_intersects_sampled_sources then [0; 1] else [0; 1; 2])%N /\
   map m_ord (spec_messages lenv (with_src [0; 5]%N (call [POSE])) true) = [0; 1; 2]%N.
 Proof. vm_compute. repeat split; reflexivity. Qed.
